@@ -255,9 +255,12 @@ func (s *sched) build(ctx context.Context, p, mk string, bg func() bool) (string
 
 	c := s.gate(p, "bend", mk, "", 0)
 
+	// The builder communicates a TTL; the returned context is deliberately dropped (updateExisting).
+	// A hint of 0 is an explicit WithTTL(ctx, 0, true): "the minimal non-zero value is kept", so it must change nothing.
 	if c.ttl != 0 {
-		// The builder communicates a TTL; the returned context is deliberately dropped (updateExisting).
 		_ = cache.WithTTL(ctx, TickDur(c.ttl, s.u), true)
+	} else {
+		_ = cache.WithTTL(ctx, 0, true)
 	}
 
 	note := ""
